@@ -20,6 +20,7 @@ from ..engine.model import AnalysisError, src, walk_own
 from ..engine.flow import Flow
 from ..engine.typestate import FactDomain
 from ..engine.poly import Poly, pabs
+from ..engine.inline import norm_text
 
 MOD = 'basic_robotics.path_planning.pathplanner'
 
@@ -352,6 +353,28 @@ def check(model, rep):
                'self.obstructions is bound to %s, which is not a list created for this instance' % src(v_), line=st_.lineno)
     cls_level = [n for n in cls.node.body if isinstance(n, (ast.Assign, ast.AnnAssign)) and 'obstructions' in src(n).split('=')[0]]
     rep.ob('R15.4', ini, 'no class-level obstruction list', not cls_level, 'a class attribute `obstructions` is shared by all planners', line=cls_level[0].lineno if cls_level else None)
+    # R15.5 the corners the test reads are the corners that were registered: addObstruction builds them with the six-vector constructor
+    rep.rule('R15.5', 'box corners are stored as given: the six-vector constructor of tm that addObstruction uses leaves the translation rows it '
+                      'stored untouched (nothing it calls wraps or rewrites rows 0..2), and indexing reads the six-vector')
+    from .tmrows import rotation_only, taa_element_stores
+    tmc = model.cls('basic_robotics.general.faser_transform', 'tm')
+    f6 = tmc.methods.get('from6DOF')
+    gi = tmc.methods.get('__getitem__')
+    if f6 is None or gi is None:
+        raise AnalysisError('anchor vanished: tm.from6DOF / tm.__getitem__')
+    rotation_only(rep, 'R15.5', tmc, f6, 'tm.from6DOF', 'corner coordinates of magnitude 2*pi or more are stored somewhere else than given: the '
+                  'obstruction test then answers for a displaced box')
+    # which entries of the argument reach rows 0..2 (element-flow evaluation of the constructor form, both values of the rpy flag)
+    from ..engine.elemflow import ElemEval, show as eshow
+    tm_methods = {n_: f_.node for n_, f_ in tmc.methods.items()}
+    for flag in (False, True):
+        ev_ = ElemEval(tm_methods, f6.params[1], {f6.params[2]: flag} if len(f6.params) > 2 else {})
+        ev_.block(f6.body(), {})
+        got = ev_.stores.get('self.TAA', ('unk', 'no store'))
+        ok = got[0] == 'lst' and len(got[1]) == 6 and tuple(got[1][:3]) == tuple(('el', (k,)) for k in range(3))
+        rep.ob('R15.5', f6, 'six-vector rows 0..2 = entries 0..2 of the argument (rpy=%s)' % flag, ok, 'the six-vector becomes %s' % eshow(got))
+    reads = [norm_text(r.value) for r in ast.walk(gi.node) if isinstance(r, ast.Return) and r.value is not None]
+    rep.ob('R15.5', gi, 'indexing reads the six-vector', bool(reads) and all(t.startswith('self.TAA[') for t in reads), 'tm.__getitem__ returns %s' % reads)
     writers = set()
     for f_ in model.all_funcs:
         for n in walk_own(f_.node):
